@@ -524,7 +524,69 @@ func runAlias(raw json.RawMessage) (*Result, error) {
 	}
 	coq := fmt.Sprintf("(MkA %s %s %s %s)", coqList(pathTs), coqList(dargs), mut, coqList(instTs))
 	nt := len(in.Insts) >= 2 && anyDiff && in.Insts[0].Tree.Count() >= 3
-	return &Result{Coq: coq, Observed: obsJ, Tags: joinTags(st.tags), Nontrivial: nt}, nil
+	return &Result{Coq: coq, Observed: obsJ, Tags: joinTags(st.tags), Nontrivial: nt, Invariant: aliasPolicyProbe(&in)}, nil
+}
+
+// nativeOf: the native Stack handle behind a nested Stack however it is typed
+// (type switches over the harness' own alias types: not the converters under test)
+func nativeOf(v any) (stk.Stack, bool) {
+	switch x := v.(type) {
+	case stk.Stack:
+		return x, x.IsInit()
+	case aStack:
+		return stk.Stack(x), stk.Stack(x).IsInit()
+	case sStack:
+		return stk.Stack(x), stk.Stack(x).IsInit()
+	case *aStack:
+		if x != nil {
+			return stk.Stack(*x), stk.Stack(*x).IsInit()
+		}
+	case *sStack:
+		if x != nil {
+			return stk.Stack(*x), stk.Stack(*x).IsInit()
+		}
+	}
+	return stk.Stack{}, false
+}
+
+// aliasPolicyProbe: a nested Stack child that carries its OWN equality policy
+// (here: one that always objects) must make the parent's IsEqual say the same
+// thing whether that child is held natively or through an alias.
+func aliasPolicyProbe(in *AliasInput) (problem string) {
+	defer func() {
+		if r := recover(); r != nil {
+			problem = fmt.Sprintf("policy probe panicked: %v", r)
+		}
+	}()
+	verdict := func(inst *AliasInst) (string, bool) {
+		root, ok := inst.Tree.Build().(stk.Stack)
+		other, ok2 := in.Insts[0].Tree.Build().(stk.Stack)
+		if !ok || !ok2 {
+			return "", false
+		}
+		found := false
+		for i := 0; i < root.Len() && !found; i++ {
+			v, _ := root.Index(i)
+			if child, isStack := nativeOf(v); isStack {
+				child.SetEqualityPolicy(func(any, any) error { return fmt.Errorf("the child's own policy objects") })
+				found = true
+			}
+		}
+		if !found {
+			return "", false
+		}
+		return fmt.Sprintf("%v/%v", root.IsEqual(other) == nil, other.IsEqual(root) == nil), true
+	}
+	v0, ok := verdict(&in.Insts[0])
+	if !ok {
+		return ""
+	}
+	for k := 1; k < len(in.Insts); k++ {
+		if vk, ok := verdict(&in.Insts[k]); ok && vk != v0 {
+			return fmt.Sprintf("a nested Stack with its own equality policy: parent.IsEqual(native copy)/reverse = %s with native children, %s in instantiation %d", v0, vk, k)
+		}
+	}
+	return ""
 }
 
 func minInt(a, b int) int {
